@@ -74,6 +74,33 @@ def kindOf : KindId → Kind
   | .v2req => V2.req
   | .v2resp => V2.resp
 
+/-! ### frames MOSN builds itself (`protocol.go`: `Trigger`, `Reply`, `Hijack`): no raw frame, always the slow path -/
+
+def localFrame (kind : KindId) (fx : Meta) : Frame :=
+  { kind := kind, fx := fx, classLen := 0, headerLen := 0, contentLen := 0, cls := [], kvs := [], content := [],
+    raw := none, hdrChanged := false, contentChanged := false }
+
+/-- `Trigger(requestId)`: heartbeat request, `uint32(requestId)`, codec hessian2 (1), version 1, timeout −1 -/
+def trigger (v2 : Bool) (id : Nat) : Frame :=
+  localFrame (if v2 then .v2req else .v1req)
+    { proto := if v2 then Gen.C01BoltV2.ProtocolCode else Gen.C01Bolt.ProtocolCode,
+      cmdType := Gen.C01Bolt.CmdTypeRequest, cmdCode := Gen.C01Bolt.CmdCodeHeartbeat, version := 1,
+      reqId := id % 2 ^ 32, codec := 1, timeout := 4294967295, ver1 := if v2 then 1 else 0 }
+
+/-- `Reply(request)`: heartbeat response with the request's id, status success (0) -/
+def reply (v2 : Bool) (id : Nat) : Frame :=
+  localFrame (if v2 then .v2resp else .v1resp)
+    { proto := if v2 then Gen.C01BoltV2.ProtocolCode else Gen.C01Bolt.ProtocolCode,
+      cmdType := Gen.C01Bolt.CmdTypeResponse, cmdCode := Gen.C01Bolt.CmdCodeHeartbeat, version := 1,
+      reqId := id % 2 ^ 32, codec := 1, status := 0, ver1 := if v2 then 1 else 0 }
+
+/-- `Hijack(request, statusCode)`: rpc response, id 0 (set by the stream layer), `uint16(statusCode)` -/
+def hijack (v2 : Bool) (status : Nat) : Frame :=
+  localFrame (if v2 then .v2resp else .v1resp)
+    { proto := if v2 then Gen.C01BoltV2.ProtocolCode else Gen.C01Bolt.ProtocolCode,
+      cmdType := Gen.C01Bolt.CmdTypeResponse, cmdCode := Gen.C01Bolt.CmdCodeRpcResponse, version := 1,
+      reqId := 0, codec := 1, status := status % 65536, ver1 := if v2 then 1 else 0 }
+
 /-- which of the two registered codecs `Decode` is called on -/
 inductive Codec where
   | bolt | boltv2
